@@ -343,6 +343,21 @@ Example tree_any_walk_ex :
   sel_tree ex_codes (fun _ => Some 3%nat) 0 11 ex_root = preorder ex_codes (header_len ex_header) 0 ex_forest.
 Proof. split; [vm_compute; tauto|]. split; vm_compute; reflexivity. Qed.
 
+(* at the root, as the streams call it: entries_tree(None) walks the first top-level entry *)
+Theorem tree_any_walk_root : forall dbg bigend types uoff h codes t f pad tbl (sel : strategy),
+  let e := mkEnc (uh_version h) (uh_fmt64 h) (uh_asize h) bigend in
+  let body := enc_forest codes bigend (header_len h) (t :: f) pad in
+  let hdr := mkUnit e (unit_length_of bigend h (nlen body)) (uh_type h) (uh_abbrev_off h) types uoff body in
+  addr_size_ok e -> header_len h + nlen body < two63 ->
+  Forall (fun t => tbl_get tbl (t_code codes t) = Some (t_abbrev codes t)) (forest_nodes (t :: f)) ->
+  forest_ok codes e (t :: f) -> sibs_fit codes (header_len h) (t :: f) ->
+  exists ts, entries_tree dbg hdr None = Ok ts /\
+             walk_tree_plan dbg e tbl sel ts = Ok (sel_tree codes sel 0 (header_len h) t, None).
+Proof.
+  intros dbg bigend types uoff h codes t f pad tbl sel e body hdr He Hlen Hc Hok Hfit.
+  exact (CursorWalkProofs.tree_any_walk_root dbg bigend types uoff h codes (t :: f) pad tbl He Hlen Hc Hok Hfit sel t f eq_refl).
+Qed.
+
 (* the shape on which a wrong depth after the fast path shows, run through the MODEL: the root (offset 11)
    has the children A (12: children, no sibling pointer) and a leaf (18); A's child X (13) has a child and a
    DW_AT_sibling (= 17). The strategy does not descend into A, so EntriesTree::next(1) scans A's subtree,
